@@ -53,6 +53,8 @@ def shards(tier):
     out = [{'first': None}]      # histories of length 1
     out.append({'long': True})
     out.append({'faults': True})
+    for spec in MANY_PATHS:
+        out.append({'many_paths': list(spec)})
     for i in range(N_MAIN, len(EVENTS)):
         out.append({'extreme': i})
     for i in range(N_MAIN):
@@ -67,6 +69,9 @@ def run_shard(shard, ctx, tier):
     mod = sys.modules[__name__]
     d = BOUNDS[tier]['depth']
     n = N_MAIN
+    if 'many_paths' in shard:
+        guarded_check(mod, {'many_paths': shard['many_paths']}, ctx)
+        return
     if 'faults' in shard:
         for i in range(0, N_MAIN, 2):
             for j in range(1, N_MAIN, 2):
@@ -289,6 +294,8 @@ def check_case(case, ctx):
         return check_boh(ctx)
     if 'faults' in case:
         return check_faults(case, ctx)
+    if 'many_paths' in case:
+        return check_many_paths(case, ctx)
     if 'long' in case:
         hist = long_history(case['long'], case['var'])
         ctx.tag('hypotheses-longer-than-255')
@@ -296,6 +303,47 @@ def check_case(case, ctx):
             check_history(dict(case, hist=[0] * cut), ctx, hist[:cut])
         return
     check_history(case, ctx, [EVENTS[i] for i in case['hist']])
+
+
+# networks with very many paths: hypotheses that disagree in every position (n positions x a arcs -> a**n paths), on both sides of 2**16, 10**5, 2**17
+MANY_PATHS = [(15, 2), (16, 2), (17, 2), (10, 3), (11, 3)]
+
+
+def check_many_paths(case, ctx):
+    from pero_ocr.decoding.confusion_networks import add_hypothese, normalize_cn, sorted_cn_paths
+    n, a = case['many_paths']
+    hyps = ['a' * n, 'b' * n, 'c' * n][:a]
+    scores = [1.0, 0.5, 0.25][:a]
+    cn = []
+    for h, sc in zip(hyps, scores):
+        cn = add_hypothese(cn, h, sc)
+    fin = normalize_cn(copy.deepcopy(cn))
+    with ctx.time_limit(300):
+        paths = sorted_cn_paths(copy.deepcopy(fin))
+    ctx.executed(a + 2)
+    ctx.state(('many_paths', n, a))
+    want = a ** n
+    desc = f'{a} hypotheses of {n} symbols that disagree everywhere ({want} arc combinations)'
+    texts = {st for st, _ in paths}
+    total = math.fsum(p for _, p in paths)
+    if len(fin) != n or any(len(pos) != a for pos in fin):
+        ctx.violation('paths-are-all-arc-combinations', f'{ID}/many-paths/network-shape', f'{desc}: network {fin[:2]}...')
+        return
+    if len(paths) != want or len(texts) != want:
+        ctx.violation('paths-are-all-arc-combinations', f'{ID}/sorted_cn_paths/not-the-product/more-than-65536-paths',
+                      f'{desc}: {len(paths)} paths enumerated, {len(texts)} distinct')
+        return
+    if not (nabs(total - 1.0) <= 1e-9):
+        ctx.violation('paths-sum-to-one', f'{ID}/sorted_cn_paths/sum', f'{desc}: the path probabilities sum to {total}')
+        return
+    if any(not (paths[i][1] >= paths[i + 1][1] - 1e-15) for i in range(len(paths) - 1)):
+        ctx.violation('paths-non-increasing', f'{ID}/sorted_cn_paths/order', f'{desc}: probabilities are not non-increasing')
+        return
+    if any(h not in texts for h in hyps):
+        ctx.violation('new-hypothesis-readable', f'{ID}/sorted_cn_paths/hypothesis-not-among-the-paths', f'{desc}')
+        return
+    ctx.outcome(('many_paths', want))
+    ctx.nontrivial(('many_paths', n, a), 'network-with-more-than-65536-paths' if want > 65536 else 'network-with-many-paths')
 
 
 def check_faults(case, ctx):
@@ -430,5 +478,5 @@ def describe(tier):
                 'every history and on the final network. Non-trivial: an add that inserted >= 2 new positions at once.',
         'bounds': BOUNDS[tier], 'alphabets': {'strings': STRINGS, 'scores': SCORES},
         'assumptions': ['sorted_cn_paths is compared with the full product only when the product has <= 4000 paths (counter reports skips)'],
-        'min_nontrivial': 20, 'required_tags': ['normalised-position-with-a-vanishing-arc', 'hypotheses-with-spaces', 'hypotheses-longer-than-255', 'vanishing-score-hypothesis', 'insertion', 'several-insertions-in-one-add', 'bag-with-lm-scores', 'bag-with-and-without-lm-scores', 'fault-points', 'failure-reported'],
+        'min_nontrivial': 20, 'required_tags': ['normalised-position-with-a-vanishing-arc', 'hypotheses-with-spaces', 'hypotheses-longer-than-255', 'vanishing-score-hypothesis', 'insertion', 'several-insertions-in-one-add', 'bag-with-lm-scores', 'bag-with-and-without-lm-scores', 'fault-points', 'failure-reported', 'network-with-more-than-65536-paths'],
     }
